@@ -3,6 +3,8 @@ module verifharness
 go 1.25.0
 
 require (
+	github.com/go-faster/errors v0.8.0
+	github.com/gotd/ige v0.3.0
 	github.com/gotd/neo v0.1.5
 	github.com/gotd/td v0.0.0
 )
@@ -12,10 +14,8 @@ require (
 	github.com/cenkalti/backoff/v4 v4.3.0 // indirect
 	github.com/cespare/xxhash/v2 v2.3.0 // indirect
 	github.com/coder/websocket v1.8.15 // indirect
-	github.com/go-faster/errors v0.8.0 // indirect
 	github.com/go-faster/jx v1.2.0 // indirect
 	github.com/go-faster/xor v1.0.0 // indirect
-	github.com/gotd/ige v0.3.0 // indirect
 	github.com/gotd/log v0.1.0 // indirect
 	github.com/klauspost/compress v1.19.1 // indirect
 	github.com/refraction-networking/utls v1.8.2 // indirect
